@@ -210,10 +210,12 @@ def gen_history(rng, maxops):
             "policy": rng.choice(["random", "random", "random", "fifo", "lifo"]), "ops": ops}
 
 
-def gen_reuse_history(rng, maxops):
+def gen_reuse_history(rng, maxops, overtaken=False):
     """Several operations through ONE MutableFileVersion object (update/overwrite/modify/read in any order, offsets
-    inside / at / after EOF), read back through a fresh node after each; occasionally the object is overtaken by a
-    change made through another object, or a new object is obtained."""
+    inside / at / after EOF), read back through a fresh node after each; occasionally a new object is obtained, or a
+    change is made through another object (then a new object is obtained before the next reuse — unless
+    `overtaken`: the overtaken object keeps being used; those histories are monitored but not compared with the
+    model, which has no version objects: what the code refuses there depends on the object's cached servermap)."""
     k, n, maxseg = rng.choice(CONFIGS)
     seg = next_multiple(maxseg, k)
     fmt = "m" if rng.random() < 0.7 else "s"
@@ -257,6 +259,8 @@ def gen_reuse_history(rng, maxops):
                 ops.append(["overwrite", rbytes(rng, size).hex(), rng.choice(["node", "version"])])
             else:
                 ops.append(upd())
+            if not overtaken:
+                ops.append(["pin"])
         else:
             ops.append(["pin"])
             continue
@@ -266,13 +270,19 @@ def gen_reuse_history(rng, maxops):
             off = rng.randrange(0, size)
             ops.append(["read", off, rng.randrange(1, size - off + 1), "fresh"])
     ops.append(["read", 0, None, "fresh"])
-    return {"kind": "hist", "k": k, "n": n, "maxseg": maxseg, "sched": rng.randrange(1 << 30),
-            "policy": rng.choice(["random", "random", "fifo", "lifo"]), "ops": ops}
+    h = {"kind": "hist", "k": k, "n": n, "maxseg": maxseg, "sched": rng.randrange(1 << 30),
+         "policy": rng.choice(["random", "random", "fifo", "lifo"]), "ops": ops}
+    if overtaken:
+        h["nomodel"] = True
+    return h
 
 
 # fixed corpus: past failures and boundary shapes, run first
-def _h(k, n, maxseg, ops, sched=1, policy="random"):
-    return {"kind": "hist", "k": k, "n": n, "maxseg": maxseg, "sched": sched, "policy": policy, "ops": ops}
+def _h(k, n, maxseg, ops, sched=1, policy="random", nomodel=False):
+    h = {"kind": "hist", "k": k, "n": n, "maxseg": maxseg, "sched": sched, "policy": policy, "ops": ops}
+    if nomodel:
+        h["nomodel"] = True       # monitored, not compared with the model (an overtaken version object is reused)
+    return h
 
 
 A = bytes(range(65, 91))
@@ -285,6 +295,9 @@ CORPUS = [
     # C09-b: the write starts before the tail segment and ends inside it, short of EOF (end segment must be fetched)
     _h(2, 4, 8, [["create", "m", A.hex()], ["update", 20, b"vwxyz".hex()], ["read", 0, None, "ver"]]),
     _h(2, 4, 8, [["create", "m", (A + A[:5]).hex()], ["update", 3, (b"v" * 24).hex()], ["read", 0, None, "dbv"]], policy="lifo"),
+    # C09-d: a write at offset 0 that ends inside the last segment, short of EOF (must not become a plain publish)
+    _h(2, 4, 8, [["create", "m", A.hex()], ["update", 0, (b"d" * 25).hex()], ["read", 0, None, "ver"]]),
+    _h(2, 4, 8, [["create", "m", A[:7].hex()], ["update", 0, b"ddd".hex()], ["read", 0, None, "fresh"]], policy="lifo"),
     # C09-c: ranged reads that end in a non-final segment beyond the tail length / exactly on a segment boundary
     _h(2, 4, 8, [["create", "m", A.hex()], ["read", 0, 5, "ver"], ["read", 1, 7, "ver"], ["read", 10, 12, "ver"],
                  ["read", 6, 1, "ver"], ["read", 0, None, "ver"]]),
@@ -314,7 +327,12 @@ CORPUS = [
     _h(2, 4, 8, [["create", "m", A.hex()], ["pin"], ["overwrite", (A[:20] * 2).hex(), "node"], ["held", ["read", 0, None, "ver"]],
                  ["held", ["update", 3, b"xyz".hex()]], ["held", ["update", 4, b"abc".hex()]], ["read", 0, None, "fresh"],
                  ["update", 0, b"other".hex()], ["held", ["overwrite", A.hex(), "held"]], ["held", ["modify", "app", b"!".hex()]],
-                 ["held", ["update", 8, b"12345678".hex()]], ["read", 0, None, "fresh"]]),
+                 ["held", ["update", 8, b"12345678".hex()]], ["read", 0, None, "fresh"]], nomodel=True),
+    # … a refused attempt through the overtaken object, then an append at an exact segment boundary through it (accepted
+    # here, although a fresh object refuses it: the object's servermap still holds the boundary segments of the attempt)
+    _h(2, 4, 8, [["create", "m", (A + A[:6]).hex()], ["pin"], ["update", 16, ""], ["read", 0, None, "fresh"],
+                 ["held", ["update", 23, b"ab".hex()]], ["read", 0, None, "fresh"], ["held", ["update", 32, (b"t" * 29).hex()]],
+                 ["read", 26, 5, "fresh"], ["held", ["update", 7, (b"s" * 26).hex()]], ["read", 0, None, "fresh"]], nomodel=True),
     # repaired b67174d (stale node size): an update that extends the file followed by an update inside it (no download in between)
     _h(2, 4, 8, [["create", "m", A[:10].hex()], ["update", 10, (b"x" * 20).hex()], ["update", 12, b"Y".hex()],
                  ["read", 0, None, "ver"]]),
@@ -605,7 +623,7 @@ def run_history(ctx, h, count=True):
                         except Exception as e:
                             if isinstance(e, (ValueError, KeyError, TypeError)) and kind not in ("update", "modify", "overwrite", "create"):
                                 raise
-                            if held and held_stale and exc_name(e) in ("UncoordinatedWriteError", "index", "NotEnoughServersError"):
+                            if held and held_stale and exc_name(e) in ("UncoordinatedWriteError", "index", "assert", "NotEnoughServersError"):
                                 # the object's servermap predates a change made through another object: the code
                                 # notices (refusal); the model has no version objects, so this op is not sent to it
                                 skip.add(i)
@@ -875,7 +893,7 @@ def run(ctx):
             mx = 8 if not thorough else rng.choice([8, 8, 20, 40])
             hists.append(gen_history(rng, mx))
         for i in range(budget(60, 700)):
-            hists.append(gen_reuse_history(rng, 8 if not thorough else rng.choice([8, 8, 20])))
+            hists.append(gen_reuse_history(rng, 8 if not thorough else rng.choice([8, 8, 20]), overtaken=(i % 4 == 3)))
         for i in range(budget(1500, 30000)):
             tus.append(tu_case(rng))
         for i in range(budget(400, 6000)):
@@ -911,17 +929,21 @@ def run(ctx):
         ctx.case(("RNG", c["seg"], c["size"], c["off"], c["len"]) if c["size"] else None)
         ctx.count("rng")
 
-    lines = [hist_line(h, h.get("_skip", ())) for h in hists] + [tu_line(c) for c in tus] + \
+    cmp_h = [(h, o) for h, o in zip(hists, impl_h) if not h.get("nomodel")]
+    for h in hists:
+        if h.get("nomodel"):
+            ctx.count("history:monitor-only(overtaken version object)")
+    lines = [hist_line(h, h.get("_skip", ())) for h, _ in cmp_h] + [tu_line(c) for c in tus] + \
             ["enc %d %d %s %d %d %d" % (c["k"], c["maxseg"], c["fmt"], c["dl"], c["off"], c["up"]) for c in encs] + \
             ["rng %d %d %d %d" % (c["seg"], c["size"], c["off"], c["len"]) for c in rngs] + \
             ["dec %d %d %d %s" % (c["seg"], c["k"], c["segnum"], hx(bytes.fromhex(c["content"]))) for c in decs]
     model = ctx.model(lines)
     if model is not None:
-        a = len(hists)
+        a = len(cmp_h)
         b = a + len(tus)
         d = b + len(encs)
         ctx.compare("mutable-file history (per op: ok:segsize:length / refusal kind; every read's bytes)",
-                    hists, impl_h, model[:a])
+                    [h for h, _ in cmp_h], [o for _, o in cmp_h], model[:a])
         ctx.compare("TransformingUploadable.read (bytes of every read)", tus, impl_t, model[a:b])
         # the model's `enc` is total; the code divides by segment_size 0 only for an SDMF update shape that never occurs
         ctx.compare("Publish.setup_encoding_parameters (segment_size, num_segments, tail, starting, end segment)",
